@@ -3,6 +3,7 @@
 package main
 
 import (
+	"github.com/bokysan/socketace/v2/internal/client/upstream"
 	"fmt"
 	"io"
 	"net"
@@ -106,7 +107,7 @@ func (lifeComp) Exec(op string) (string, string, string, bool) {
 	if closer == "target" {
 		tmode = "source:100:1"
 	}
-	rig, err := NewRig(RigOpts{Carrier: carrier, Channels: map[string]string{"echo": tmode}, Insecure: true, Relay: ending == "cut" || ending == "garbage"})
+	rig, err := NewRig(RigOpts{Carrier: carrier, Channels: map[string]string{"echo": tmode}, Insecure: true, Relay: ending == "cut" || ending == "garbage" || ending == "freeze"})
 	if err != nil {
 		return "fail:rig", err.Error(), "fail", false
 	}
@@ -143,6 +144,18 @@ func (lifeComp) Exec(op string) (string, string, string, bool) {
 		rig.Fault.Fail(timeoutErr{}, rig.faultWake)
 	case "reset":
 		rig.Fault.Fail(syscall.ECONNRESET, rig.faultWake)
+	case "sessclose":
+		// the client's multiplexer session closes itself (what its keep-alive does when the peer has gone silent); the
+		// client still holds the dead session object when the next logical connection arrives
+		if !upstream.VerifCloseSession(&rig.cli.Upstream) {
+			return "fail:rig", "no session to close", "fail", false
+		}
+	case "freeze":
+		// the carrier goes silent without being closed until both ends' keep-alive gives up (30 s), then works again
+		rig.Relay.Freeze(true)
+		time.Sleep(34 * time.Second)
+		rig.Relay.Freeze(false)
+		rig.Relay.Cut()
 	case "garbage":
 		rig.Relay.Inject([]byte("\xff\xfe\xfd\xfc\xfb\xfa\xf9\xf8\xf7\xf6\xf5\xf4\xf3\xf2\xf1\xf0 this is not a multiplexer frame"))
 	}
@@ -157,8 +170,49 @@ func (lifeComp) Exec(op string) (string, string, string, bool) {
 			spin = true
 		}
 	}
+	after := ""
+	if ending == "sessclose" || ending == "freeze" {
+		// the dead session is replaced: later logical connections are served, and they do not pile up
+		try := func(seed uint64) error {
+			done := make(chan error, 1)
+			go func() { done <- oneConn(rig, closer, seed) }()
+			select {
+			case err := <-done:
+				return err
+			case <-time.After(12 * time.Second):
+				return fmt.Errorf("no answer within 12s")
+			}
+		}
+		// the first connections re-establish the session (its long-lived goroutines are not growth)
+		var lastErr error
+		served := 0
+		for i := 0; i < 3; i++ {
+			if lastErr = try(uint64(400 + i)); lastErr == nil {
+				served++
+			}
+		}
+		g2 := quiesce()
+		if served > 0 {
+			for i := 0; i < n; i++ {
+				if err := try(uint64(500 + i)); err == nil {
+					served++
+				} else {
+					lastErr = err
+				}
+			}
+		}
+		g3 := quiesce()
+		if served < n+2 {
+			after = fmt.Sprintf("after the session had ended (%s) only %d of %d later logical connections were served (%v); goroutines %d -> %d", ending, served, n+3, lastErr, g2, g3)
+		} else if int(float64(g3-g2)/float64(n)+0.5) > 0 {
+			after = fmt.Sprintf("after the session had ended (%s) goroutines grow with later connections: %d -> %d over %d connections", ending, g2, g3, n)
+		}
+	}
 	perConn := int(grow + 0.5)
 	res := fmt.Sprintf("grow=%d spin=%v", perConn, spin)
+	if after != "" {
+		return res + " after=stuck", after, carrier + " " + closer + " " + ending, true
+	}
 	mon := ""
 	if perConn > 0 {
 		mon = fmt.Sprintf("goroutines grow with the number of finished connections: %d -> %d over %d connections", g0, g1, n)
@@ -180,6 +234,8 @@ func (lifeComp) Gen(r *Rand, tier string, emit func(string)) {
 	emit("tcptls 12 badpeer hold")
 	emit("stdio 10 app timeout")
 	emit("stdio 10 app reset")
+	emit("tcp 10 app sessclose")
+	emit("ws 6 target sessclose")
 	emit("tcp 10 app cut")
 	emit("tcptls 10 app cut")
 	emit("tcp 10 app garbage")
@@ -192,6 +248,8 @@ func (lifeComp) Gen(r *Rand, tier string, emit func(string)) {
 		emit("tcp 100 badpeer hold")
 		emit("starttls 30 badpeer hold")
 		emit("tcptls 30 badpeer close")
+		emit("tcp 10 app freeze")
+		emit("udp 6 app sessclose")
 		emit("tcp 100 app none")
 		emit("tcp 100 target none")
 		emit("ws 10 app garbage")
